@@ -350,6 +350,9 @@ def gen_mixed_world(R, cfg, with_noise=False, nconn=None):
     """TLS + QUIC mixed world (QUIC share controlled by cfg['quic_pct'])"""
     spec = gen_tls_world(R, cfg, nconn=nconn, with_noise=with_noise)
     qp = cfg.get("quic_pct", 0)
+    import os
+    if qp and not os.path.exists(os.path.join(os.path.dirname(__file__), "quicpeer.py")):
+        qp = 0
     if qp:
         from . import quicpeer
         used = set((c["c"]["ip"], c["c"]["port"], c["s"]["ip"], c["s"]["port"]) for c in spec["conns"])
